@@ -21,6 +21,8 @@ CONSTANTS
   Families = {"esc", "py", "doc"}
   CtxIds = {"A"}
   EscLen = 2
+  NParts = 1
+  Part = 0
   MaxSteps = 400
   KnownRepeatOverMapping = TRUE
 INVARIANT Terminates
